@@ -123,6 +123,7 @@ class Registry:
                            'StopIteration', 'AssertionError', 'RecursionError', 'Exception', 'RuntimeError',
                            'FileNotFoundError', 'NotImplementedError'}
         self.exc_parents = {'KeyError': 'LookupError', 'IndexError': 'LookupError'}
+        self.lemmas = []          # (name, props, fn(reg) -> list[(subname, hyps, goal)])  pure-logic lemmas over contracts
 
     def add(self, c: Contract):
         self.contracts[c.key] = c
@@ -132,6 +133,9 @@ class Registry:
         elif len(q) == 1:
             self.by_func[q[0]] = c
         return c
+
+    def add_lemma(self, name, props, fn):
+        self.lemmas.append((name, tuple(props), fn))
 
     def add_exception(self, name, parent='Exception'):
         self.exceptions.add(name)
